@@ -83,6 +83,23 @@ Theorem convert_format_idempotent : forall (L version : Type) (vge : version -> 
 Proof. exact convert_idempotent_lemma. Qed.
 Print Assumptions convert_format_idempotent.
 
+(* the complete convert_format (sector default, default components, version test) is the identity on a
+   current-format document of EVERY sector: the sector entry is only added when the key is missing, its value
+   (a plain string after JSON decoding) is never inspected *)
+Theorem convert_format_identity_every_sector : forall (L version : Type) (vge : version -> version -> bool)
+    (current : version) (format_version : doc L -> version) (upgrade : doc L -> doc L)
+    (sector_all : value L) (complete : doc L -> bool) (add_defaults : doc L -> doc L),
+  (forall d, complete d = true -> add_defaults d = d) ->
+  forall d, has_key L "sector" d = true -> complete d = true -> vge (format_version d) current = true ->
+  convert_format_full L version vge current format_version upgrade sector_all add_defaults d = d.
+Proof. exact convert_full_fixpoint_lemma. Qed.
+Print Assumptions convert_format_identity_every_sector.
+
+Theorem sector_entry_never_overwritten : forall (L : Type) (sector_all : value L) d,
+  has_key L "sector" d = true -> add_sector L sector_all d = d.
+Proof. exact add_sector_only_when_missing_lemma. Qed.
+Print Assumptions sector_entry_never_overwritten.
+
 (* ---- facts of the source the model relies on (regenerated on every run) ---- *)
 Theorem generated_key_filter : forallb (String.eqb "_") key_filter_prefixes = true /\ length key_filter_prefixes = 2.
 Proof. vm_compute. split; reflexivity. Qed.
@@ -139,6 +156,12 @@ Theorem roundtrip_total : forall (L E : Type) (lenc : L -> E) (ldec : E -> optio
   decode L E ldec known_component (encode L E lenc d) <> None.
 Proof. intros L E lenc ldec quant kc H d W. rewrite (roundtrip_lemma L E lenc ldec quant kc H d W). discriminate. Qed.
 Print Assumptions roundtrip_total.
+
+(* _add_sector tests the presence of the KEY only, and convert_format calls it and add_default_components(overwrite=False)
+   before the version test - the shape the model of convert_format_full assumes *)
+Theorem generated_sector_guard : sector_guard_key_presence = true /\ convert_prelude_recognised = true.
+Proof. split; reflexivity. Qed.
+Print Assumptions generated_sector_guard.
 
 (* ---- the hypotheses are satisfiable: a concrete leaf codec and a document with every value kind ---- *)
 Definition ex_quant (s : string) : string := match s with String c _ => String c "" | EmptyString => "" end.
